@@ -71,7 +71,11 @@ def check_docs(chk, label, cases, obs, metas=None):
         if not o["emit"].get("roundtrip"):
             chk.violation("C03|yaml-roundtrip", "%s: the YAML text does not parse back to the same document: %r" % (label, text[:120]),
                           {"files": hc["files"], "reparse_err": o["emit"].get("reparse_err")})
-        for kind, what in validate.validate(o.get("doc")):
+        problems = validate.validate(o.get("doc"))
+        if any(kind == "duplicate-path-variable" for kind, _ in problems):
+            n -= 1
+            continue              # outside the property's domain: the program repeats a variable name inside one path
+        for kind, what in problems:
             if kind == "component-is-only-a-reference-cycle":
                 continue          # every $ref still resolves; that such a component holds no schema is C09's subject
             key = "C03|%s" % kind
@@ -124,6 +128,17 @@ def run(tier):
     chk.add_tlc(rt)
     fam = [progs.harness_case(c["prog"], style=i % 4, want={"doc": True})[0] for i, c in enumerate(rt.cases) if c["outcome"] == "OK"]
     nontrivial += check_docs(chk, "position-shape-families", fam, run_oalv_parallel("compile", fam, jobs=8))
+    # the families of DenMC.tla (URIs and their concatenations, transfers, ranges, schemas, recursive instantiations)
+    for f in ("uris", "xfers", "ranges", "schemas", "recinst"):
+        rf = run_tlc("DenMC", "Prog_%s.cfg" % f, workers=4, timeout=900, java_opts=["-Xss512m"])
+        chk.add_tlc(rf)
+        fc = [progs.harness_case(c["prog"], style=i % 4, want={"doc": True})[0] for i, c in enumerate(rf.cases)]
+        nontrivial += check_docs(chk, "family-" + f, fc, run_oalv_parallel("compile", fc, jobs=8))
+    # random composite programs
+    import gen
+    ps = gen.programs(common.seed() * 1000 + 3, 400 if tier == "quick" else 6000, p_bad=0.0)
+    gc = [progs.harness_case(p, style=i % 4, want={"doc": True})[0] for i, p in enumerate(ps)]
+    nontrivial += check_docs(chk, "random-composites", gc, run_oalv_parallel("compile", gc, jobs=8))
     B = progs.B
     texts = c04.rec_shapes() + [t for _, t in corpus.texts() if "use " not in t]
     single = [{"main": B + "m1.oal", "files": {B + "m1.oal": t}, "want": {"doc": True}} for t in texts]
@@ -138,7 +153,7 @@ def run(tier):
     chk.cov["distinct_nontrivial"] = nontrivial
     chk.cov["exhaustive"] = tier != "quick"
     chk.cov["rule"] = ("pairs of different URI patterns over {root, a, A, b, literal `root`, variables a and b} up to 2 segments (TLC Init; a seeded sample in the quick tier), "
-                       "each compiled and validated; plus every accepted member of the position/shape families, recursion shapes, corpus, determinism programs, and "
+                       "each compiled and validated; plus every accepted member of the position/shape families, of the Uris/Xfers/Ranges/Schemas/RecInst families of DenMC.tla, seeded random composite programs (gen.py; 400 quick / 6000 thorough), recursion shapes, corpus, determinism programs, and "
                        "documents merged with a base; non-trivial = an emitted document was validated")
     if cases:
         chk.sample({"pair_program": list(cases[0]["files"].values())[0], "spec_collide": pairs[0]["collide"]})
